@@ -306,7 +306,8 @@ Lemma pure_create_index d n tn u cols : pure_out (create_index d n tn u cols).
 Proof.
   unfold create_index. destruct (index_table_idx d tn); [|exact I].
   destruct (negb (is_ascii n)); [exact I|]. destruct (existsb _ _); [exact I|].
-  destruct (nth_error _ _); [|exact I]. destruct (columns_idx _ _); exact I.
+  destruct (nth_error _ _); [|exact I]. destruct (columns_idx _ _); try exact I.
+  destruct (index_unique_ok _ _ _); exact I.
 Qed.
 
 Section FileGood.
@@ -712,6 +713,7 @@ Section DataGood2.
       unfold rebuild_index. destruct (index_table_idx d (i_table i)); [|exact I].
       destruct (nth_error (d_tables d) n); [|exact I].
       destruct (columns_idx (t_cols t) (i_cols i)); try exact I.
+      destruct (index_unique_ok (i_unique i) (t_rows t) a); try exact I.
       destruct (rebuild_all d l); cbn in *; auto. }
     destruct (rebuild_all d (d_indexes d)); cbn in *; auto.
   Qed.
